@@ -73,7 +73,14 @@ def directed_cases(tier):
            "cont": 0, "comp": 0, "checksum": 0, "salt": 5, "uuid": "verif", "start": 170000000040}
     ops = [{"op": "w", "idx": 0, "len": 90}, {"op": "b", "len": 50, "g": [100, 180], "d": [0, 30]},
            {"op": "b", "len": 40, "g": [260, 300], "d": [0, 10]}, {"op": "w", "idx": 400, "len": 30}]
-    return [{"cfg": cfg, "ops": ops, "py_sample": [3, 14, 15, 92, 65, 35]}]
+    out = [{"cfg": cfg, "ops": ops, "py_sample": [3, 14, 15, 92, 65, 35]}]
+    # a chunked file larger than HDF5's 1 MiB chunk cache (32-byte samples): H5Dwrite then has to evict - i.e. write out -
+    # chunks that belong to EARLIER, already accepted calls, so a fault during a later call can lose an earlier call's data
+    big = {"kind": "i", "size": 8, "order": "<", "cplx": 1, "form": "struct", "nsub": 2, "n": 100000, "d": 1, "F": 1000, "S": 10,
+           "cont": 0, "comp": 0, "checksum": 0, "salt": 6, "uuid": "verif", "start": 170000000000000}
+    out.append({"cfg": big, "ops": [{"op": "w", "idx": 20000 * i, "len": 20000} for i in range(4)] + [{"op": "w", "idx": 95000, "len": 9000}],
+                "py_sample": [7, 21]})
+    return out
 
 
 def call_of_op(events):
